@@ -38,6 +38,14 @@ let rec node_ s : M.node =
   match list s with
   | [Atom "f"; name; c] -> M.NFile (str_ name, content_ c)
   | [Atom "d"; name; ch] -> M.NDir (str_ name, list_ node_ ch)
+  | [Atom "l"; name; t] ->
+      (* (file content) | (dir) | (dangling) *)
+      let t = match list t with
+        | [Atom "file"; c] -> M.LFile (content_ c)
+        | [Atom "dir"] -> M.LDir
+        | [Atom "dangling"] -> M.LDangling
+        | _ -> failwith "c03: bad link target" in
+      M.NLink (str_ name, t)
   | _ -> failwith "c03: bad node"
 
 let of_pairs l = of_list (of_pair of_str of_str) l
